@@ -43,6 +43,9 @@ type Outcome struct {
 	// Plan, when set, is the concrete failing plan derived from the executed
 	// one (fault enumeration): it replaces the plan for shrinking and replay.
 	Plan any `json:"-"`
+	// Decisions is the schedule the run took (decisions that had a choice), for
+	// engines that can be re-run along a recorded schedule.
+	Decisions []string `json:"-"`
 	// Evals counts the executions this outcome stands for (enumeration).
 	Evals int `json:"evals,omitempty"`
 }
@@ -57,6 +60,15 @@ type Engine interface {
 	Shrink(plan any) []any
 	// Decode turns the JSON of a replay file back into a plan.
 	Decode(raw json.RawMessage) (any, error)
+}
+
+// Rescheduler is implemented by engines whose plans can carry a recorded
+// schedule: the shrinker then edits the plan while the scheduler keeps
+// following the decisions of the failing run (by option name), instead of
+// re-deriving a completely different schedule from the seed.
+type Rescheduler interface {
+	WithSchedule(plan any, decisions []string) any
+	ScheduleLen(plan any) int
 }
 
 // Replay is the replay-file format.
@@ -371,8 +383,32 @@ func shrink(eng Engine, plan any, o Outcome, prop string, budget time.Duration) 
 			return plan, o, false
 		}
 	}
+	rs, canResched := eng.(Rescheduler)
+	if canResched && len(o.Decisions) > 0 {
+		// pin the schedule of the failing run into the plan
+		if p2, ok := roundTrip(eng, rs.WithSchedule(plan, o.Decisions)); ok {
+			if o2 := eng.Execute(p2, prop); sameKey(o2, key) {
+				plan, o, shrunk = p2, o2, true
+			}
+		}
+	}
 	for progress := true; progress && time.Now().Before(deadline); {
 		progress = false
+		if canResched && rs.ScheduleLen(plan) > 0 {
+			// schedule first: a shorter recorded prefix (the seeded strategy takes over after it)
+			for n := rs.ScheduleLen(plan) / 2; n >= 0 && time.Now().Before(deadline); n /= 2 {
+				c2, ok := roundTrip(eng, rs.WithSchedule(plan, o.Decisions[:min(n, len(o.Decisions))]))
+				if ok {
+					if oc := eng.Execute(c2, prop); sameKey(oc, key) {
+						plan, o, progress, shrunk = c2, oc, true, true
+						break
+					}
+				}
+				if n == 0 {
+					break
+				}
+			}
+		}
 		for _, c := range eng.Shrink(plan) {
 			if time.Now().After(deadline) {
 				break
@@ -383,6 +419,14 @@ func shrink(eng Engine, plan any, o Outcome, prop string, budget time.Duration) 
 			}
 			if oc := eng.Execute(c2, prop); sameKey(oc, key) {
 				plan, o, progress, shrunk = c2, oc, true, true
+				if canResched && rs.ScheduleLen(plan) > 0 && len(oc.Decisions) > 0 {
+					// re-pin: drop recorded decisions that no longer exist in the smaller plan
+					if p3, ok := roundTrip(eng, rs.WithSchedule(plan, oc.Decisions)); ok {
+						if o3 := eng.Execute(p3, prop); sameKey(o3, key) {
+							plan, o = p3, o3
+						}
+					}
+				}
 				break
 			}
 		}
